@@ -8,7 +8,7 @@ import shutil
 
 import numpy as np
 
-from lib import core, tlc, mgmodel
+from lib import core, tlc, mgmodel, radial
 
 H = mgmodel.H
 CFG = ("CONSTANTS AtmType = %d\n AtmCol = \"%s\"\n FreshNames = {}\nINIT GInit\nNEXT GNext\nCONSTRAINT Emit\nCHECK_DEADLOCK FALSE\n")
@@ -334,6 +334,10 @@ def run(tier):
                   "centre coordinates in floating point (1e-9 / 1e-12)", "permeability direction checked for angle 0 only"]
     rep.assumptions = ["untilted geometries", "on shipped geometries (and their refinements / rotations) the expected values are GeoToGrid.tla's definitions instantiated in floating point by the harness (float_expected), not evaluated by TLC"]
     rep.exhaustive = False
+    try:
+        radial.observe(rep, quick)
+    except Exception as e:          # (beyond the properties: never a verdict, never a failure of this check)
+        print("OBSERVATION beyond-properties (t2grid.radial): harness stopped: %r" % (e,))
     return rep.finish()
 
 
